@@ -1,6 +1,682 @@
-//! C05 — stub (to be implemented).
+//! C05 — BAM record encode/decode are inverse; lazy field views agree with eager decode.
+//!
+//! Monitor: generated records (gensam, `Level::Full`: the whole quantifier) are handed to the real
+//! `bam::io::Writer` (`Writer::new` = BGZF and `Writer::from` = raw stream; header with and
+//! without reference dictionary). For every record the writer accepts:
+//!  (i)   the eager read-back (`read_record_buf`) must equal the *expected normal form computed
+//!        from the description* (bases upper-cased / non-alphabet -> N; MAPQ 255 = missing; all
+//!        else identical, aux fields with their declared type, floats bit for bit);
+//!  (ii)  the raw record bytes, split and decoded by gensam's independent BAM decoder, must carry
+//!        the described values, `bin` = spec reg2bin of the span for coordinates < 2^29, consistent
+//!        l_read_name / n_cigar_op / l_seq, and for > 65535 operations the `kSmN` placeholder plus a
+//!        `CG:B,I` field;
+//!  (iii) every lazy accessor of `bam::Record` (inherent and through `sam::alignment::Record`) and
+//!        `RecordBuf::try_from_alignment_record` must agree with the eager decode of the same bytes;
+//!  (iv)  writing the lazy record again (`write_record`) must read back equal too (a `bam::Record`
+//!        is an alignment record the writer accepts).
+//! Out-of-range records (gensam `Invalid`) must be rejected when the BAM field cannot hold the value;
+//! whatever is accepted goes through (i)–(iv), so truncation or wrapping is caught there as well.
+
+use std::io::Write;
+
+use gensam::{
+    AuxDesc, Cmp, HeaderDesc, HeaderOpts, INVALID_KINDS, Invalid, Level, RecDesc, RecOpts, bam_normal_form, boundary_records, decode_bam_record,
+    describe_alignment_record, describe_header, describe_lazy_value, describe_record, diff_records, expected_bin, gen_header, gen_invalid_record,
+    gen_record, rec_class, split_bam_stream, to_header, to_record_buf,
+};
+use noodles_bam as bam;
+use noodles_sam::{self as sam, alignment::RecordBuf, alignment::io::Write as _};
+use serde_json::json;
+use vcore::{CaseOut, Ctx, Report, Rng, guard, rng::fnv1a, run_cases};
+
+#[derive(Clone, Debug)]
+struct Case {
+    /// "boundary" | "random" | "huge"
+    kind: &'static str,
+    with_dict: bool,
+    bgzf: bool,
+    n: usize,
+    cseed: u64,
+}
+
+fn case_json(c: &Case) -> serde_json::Value {
+    json!({"kind": c.kind, "with_dict": c.with_dict, "bgzf": c.bgzf, "n": c.n, "cseed": c.cseed})
+}
+
+fn gen_cases(ctx: &Ctx) -> Vec<Case> {
+    let mut v = Vec::new();
+    // deterministic boundary corpus under all four (dictionary, container) combinations
+    for (i, (with_dict, bgzf)) in [(true, true), (true, false), (false, true), (false, false)].into_iter().enumerate() {
+        v.push(Case { kind: "boundary", with_dict, bgzf, n: 0, cseed: i as u64 });
+    }
+    let per_case = ctx.budget("per_case", 250, 250) as usize;
+    let records = ctx.budget("records", 30_000, 1_500_000) as usize;
+    let huge_cases = ctx.budget("huge_cases", 6, 60) as usize;
+    let n = records.div_ceil(per_case);
+    for i in 0..n {
+        v.push(Case { kind: "random", with_dict: i % 4 != 3, bgzf: i % 2 == 0, n: per_case, cseed: ctx.seed.wrapping_mul(1_000_003).wrapping_add(i as u64) });
+    }
+    for i in 0..huge_cases {
+        v.push(Case { kind: "huge", with_dict: i % 3 != 2, bgzf: i % 2 == 0, n: 6, cseed: ctx.seed.wrapping_mul(7_000_003).wrapping_add(i as u64) });
+    }
+    v
+}
+
+/// (header, records with the aspect that was made invalid, if any)
+fn build_case(c: &Case) -> (HeaderDesc, Vec<(RecDesc, Option<Invalid>)>) {
+    let mut rng = Rng::new(c.cseed, 0xC05, 1);
+    let ho = HeaderOpts { min_refs: 1, max_refs: 9, big_refs: true, rich: c.cseed % 5 == 0, hd: if c.cseed % 7 == 0 { Some(false) } else { Some(true) } };
+    let full = gen_header(&mut rng, &ho);
+    let hdr = if c.with_dict { full } else { full.without_sq() };
+    let mut recs = Vec::new();
+    match c.kind {
+        "boundary" => {
+            for r in boundary_records(&hdr, Level::Full, true) {
+                recs.push((r, None));
+            }
+            // every rejection class, a few times each
+            let o = RecOpts::full();
+            for (i, k) in INVALID_KINDS.iter().cycle().take(INVALID_KINDS.len() * 6).enumerate() {
+                let _ = i;
+                recs.push((gen_invalid_record(&mut rng, &hdr, &o, *k), Some(*k)));
+            }
+        }
+        "huge" => {
+            let mut o = RecOpts::full();
+            o.huge_cigar_permille = 1000;
+            for _ in 0..c.n {
+                recs.push((gen_record(&mut rng, &hdr, &o), None));
+            }
+        }
+        _ => {
+            let mut o = RecOpts::full();
+            if c.cseed % 3 == 0 {
+                o.max_seq_len = 2000;
+                o.max_array_len = 3000;
+            }
+            for i in 0..c.n {
+                if rng.chance(1, 14) {
+                    let k = INVALID_KINDS[(i + rng.usize_below(INVALID_KINDS.len())) % INVALID_KINDS.len()];
+                    recs.push((gen_invalid_record(&mut rng, &hdr, &o, k), Some(k)));
+                } else {
+                    recs.push((gen_record(&mut rng, &hdr, &o), None));
+                }
+            }
+        }
+    }
+    (hdr, recs)
+}
+
+fn short_rec(r: &RecDesc) -> String {
+    let s = format!("{r:?}");
+    if s.len() > 700 { format!("{}…", &s[..700]) } else { s }
+}
+
+/// Normalises an error text into a reason class (digits -> #).
+fn reason(e: &std::io::Error) -> String {
+    let mut s = e.to_string();
+    let mut src: Option<&(dyn std::error::Error + 'static)> = e.get_ref().and_then(|r| r.source());
+    while let Some(x) = src {
+        s.push_str(" / ");
+        s.push_str(&x.to_string());
+        src = x.source();
+    }
+    guard::normalise_message(&s).chars().take(90).collect()
+}
+
+struct Written {
+    /// the sink content
+    file: Vec<u8>,
+    /// per input record: Ok or the rejection reason
+    results: Vec<Result<(), String>>,
+}
+
+fn write_records<W: Write>(
+    w: &mut bam::io::Writer<W>,
+    header: &sam::Header,
+    recs: &[RecordBuf],
+    out: &mut CaseOut,
+) -> Option<Vec<Result<(), String>>> {
+    match guard::catch(|| w.write_header(header)) {
+        Err(p) => {
+            out.violation(format!("panic:{}", p.sig), format!("write_header panicked: {}", p.message));
+            return None;
+        }
+        Ok(Err(e)) => {
+            out.count(&format!("header_rejected[{}]", reason(&e)), 1);
+            return None;
+        }
+        Ok(Ok(())) => {}
+    }
+    let mut results = Vec::with_capacity(recs.len());
+    for rb in recs {
+        match guard::catch(|| w.write_alignment_record(header, rb)) {
+            Err(p) => {
+                out.violation(format!("panic:{}", p.sig), format!("write_alignment_record panicked: {} at {}:{}", p.message, p.file, p.line));
+                return None;
+            }
+            Ok(Err(e)) => results.push(Err(reason(&e))),
+            Ok(Ok(())) => results.push(Ok(())),
+        }
+    }
+    Some(results)
+}
+
+fn write_file(c: &Case, header: &sam::Header, recs: &[RecordBuf], out: &mut CaseOut) -> Option<Written> {
+    if c.bgzf {
+        let mut w = bam::io::Writer::new(Vec::new());
+        let results = write_records(&mut w, header, recs, out)?;
+        match guard::catch(|| w.into_inner().finish()) {
+            Ok(Ok(file)) => Some(Written { file, results }),
+            Ok(Err(e)) => {
+                out.violation("writer-finish-failed", format!("bgzf finish failed on a Vec sink: {e}"));
+                None
+            }
+            Err(p) => {
+                out.violation(format!("panic:{}", p.sig), format!("finish panicked: {}", p.message));
+                None
+            }
+        }
+    } else {
+        let mut w = bam::io::Writer::from(Vec::new());
+        let results = write_records(&mut w, header, recs, out)?;
+        Some(Written { file: w.into_inner(), results })
+    }
+}
+
+/// Reads every record eagerly; `Err` carries the index at which reading failed.
+fn read_eager(c_bgzf: bool, file: &[u8]) -> Result<(sam::Header, Vec<RecordBuf>), (usize, String)> {
+    fn go<R: std::io::Read>(mut r: bam::io::Reader<R>) -> Result<(sam::Header, Vec<RecordBuf>), (usize, String)> {
+        let h = r.read_header().map_err(|e| (0usize, format!("read_header: {e}")))?;
+        let mut v = Vec::new();
+        loop {
+            let mut rb = RecordBuf::default();
+            match r.read_record_buf(&h, &mut rb) {
+                Ok(0) => break,
+                Ok(_) => v.push(rb),
+                Err(e) => return Err((v.len(), format!("read_record_buf: {} ", reason(&e)))),
+            }
+        }
+        Ok((h, v))
+    }
+    if c_bgzf { go(bam::io::Reader::new(file)) } else { go(bam::io::Reader::from(file)) }
+}
+
+fn read_lazy(c_bgzf: bool, file: &[u8]) -> Result<Vec<bam::Record>, (usize, String)> {
+    fn go<R: std::io::Read>(mut r: bam::io::Reader<R>) -> Result<Vec<bam::Record>, (usize, String)> {
+        r.read_header().map_err(|e| (0usize, format!("read_header: {e}")))?;
+        let mut v = Vec::new();
+        loop {
+            let mut rec = bam::Record::default();
+            match r.read_record(&mut rec) {
+                Ok(0) => break,
+                Ok(_) => v.push(rec),
+                Err(e) => return Err((v.len(), format!("read_record: {}", reason(&e)))),
+            }
+        }
+        Ok(v)
+    }
+    if c_bgzf { go(bam::io::Reader::new(file)) } else { go(bam::io::Reader::from(file)) }
+}
+
+/// Describes a lazy record through its *inherent* accessors only.
+fn describe_inherent(r: &bam::Record) -> Result<RecDesc, String> {
+    let mut d = RecDesc { name: r.name().map(|n| n.to_vec()), flags: u16::from(r.flags()), tlen: r.template_length(), ..Default::default() };
+    d.ref_id = r.reference_sequence_id().transpose().map_err(|e| format!("reference_sequence_id: {e}"))?;
+    d.pos = r.alignment_start().transpose().map_err(|e| format!("alignment_start: {e}"))?.map(|p| usize::from(p) as u64);
+    d.mapq = r.mapping_quality().map(u8::from);
+    let c = r.cigar();
+    for op in c.iter() {
+        let op = op.map_err(|e| format!("cigar: {e}"))?;
+        d.cigar.push((gensam::conv::char_of(op.kind()), op.len() as u32));
+    }
+    if c.len() != d.cigar.len() || c.is_empty() != d.cigar.is_empty() || c.as_bytes().len() != 4 * d.cigar.len() {
+        return Err(format!("cigar: len() = {}, as_bytes = {} bytes, iterator yields {}", c.len(), c.as_bytes().len(), d.cigar.len()));
+    }
+    d.mate_ref_id = r.mate_reference_sequence_id().transpose().map_err(|e| format!("mate_reference_sequence_id: {e}"))?;
+    d.mate_pos = r.mate_alignment_start().transpose().map_err(|e| format!("mate_alignment_start: {e}"))?.map(|p| usize::from(p) as u64);
+    let s = r.sequence();
+    d.seq = s.iter().collect();
+    if s.len() != d.seq.len() || s.is_empty() != d.seq.is_empty() || s.as_bytes().len() != d.seq.len().div_ceil(2) {
+        return Err(format!("sequence: len() = {}, as_bytes = {} bytes, iterator yields {}", s.len(), s.as_bytes().len(), d.seq.len()));
+    }
+    for (i, b) in d.seq.iter().enumerate() {
+        if s.get(i) != Some(*b) {
+            return Err(format!("sequence: get({i}) = {:?}, iterator yields {:?} (length {})", s.get(i).map(|c| c as char), *b as char, d.seq.len()));
+        }
+    }
+    if s.get(d.seq.len()).is_some() {
+        return Err("sequence: get(len) is not None".into());
+    }
+    // reverse iteration and split_at_checked are part of the lazy view too
+    let rev: Vec<u8> = s.iter().rev().collect();
+    if rev.iter().rev().copied().collect::<Vec<u8>>() != d.seq {
+        return Err(format!("sequence: reverse iteration disagrees with forward iteration (length {})", d.seq.len()));
+    }
+    let q = r.quality_scores();
+    let qv: Vec<u8> = q.iter().collect();
+    if q.len() != qv.len() || q.is_empty() != qv.is_empty() || q.as_bytes() != &qv[..] {
+        return Err(format!("quality_scores: len() = {}, iterator yields {}", q.len(), qv.len()));
+    }
+    d.qual = if qv.is_empty() { None } else { Some(qv) };
+    let data = r.data();
+    for f in data.iter() {
+        let (t, v) = f.map_err(|e| format!("data: {e}"))?;
+        d.aux.push((*t.as_ref(), describe_lazy_value(&v).map_err(|e| format!("data: {e}"))?));
+    }
+    if data.is_empty() != d.aux.is_empty() {
+        return Err(format!("data: is_empty() = {} with {} fields", data.is_empty(), d.aux.len()));
+    }
+    for (t, v) in &d.aux {
+        match data.get(t) {
+            Some(Ok(g)) => {
+                let g = describe_lazy_value(&g).map_err(|e| format!("data.get: {e}"))?;
+                if format!("{g:?}") != format!("{v:?}") {
+                    return Err(format!("data: get({}) disagrees with the iterator", String::from_utf8_lossy(t)));
+                }
+            }
+            _ => return Err(format!("data: get({}) fails for a tag the iterator yields", String::from_utf8_lossy(t))),
+        }
+    }
+    if data.get(b"!!").is_some() {
+        return Err("data: get of an absent tag is not None".into());
+    }
+    Ok(d)
+}
+
+/// `lazy` has exactly the fields of `eager` plus a CG:B,I field (the retained long-CIGAR carrier).
+fn only_extra_cg(eager: &RecDesc, lazy: &RecDesc) -> bool {
+    if lazy.aux.len() != eager.aux.len() + 1 {
+        return false;
+    }
+    let rest: Vec<&(gensam::Tag2, AuxDesc)> = lazy.aux.iter().filter(|e| !(e.0 == *b"CG" && matches!(e.1, AuxDesc::BU32(_)))).collect();
+    rest.len() == eager.aux.len() && rest.iter().zip(&eager.aux).all(|(a, b)| a.0 == b.0 && format!("{:?}", a.1) == format!("{:?}", b.1))
+}
+
+fn run_case(c: &Case, idx: u64) -> CaseOut {
+    let mut out = CaseOut::new();
+    let (hdr, descs) = build_case(c);
+    out.evaluations = descs.len() as u64;
+    let header = to_header(&hdr);
+    let recs: Vec<RecordBuf> = descs.iter().map(|(d, _)| to_record_buf(d, &hdr)).collect();
+    let cfg = format!("{}{}", if c.with_dict { "dict" } else { "nodict" }, if c.bgzf { "+bgzf" } else { "+raw" });
+
+    let Some(w) = write_file(c, &header, &recs, &mut out) else {
+        out.inconclusive.push("header rejected or writer panicked: no file to judge".into());
+        return out;
+    };
+
+    // accounting of accepted / rejected records
+    let mut accepted: Vec<usize> = Vec::new();
+    for (i, res) in w.results.iter().enumerate() {
+        let (d, inv) = &descs[i];
+        match (res, inv) {
+            (Ok(()), None) => {
+                accepted.push(i);
+                out.count("accepted_valid", 1);
+            }
+            (Ok(()), Some(k)) => {
+                accepted.push(i);
+                out.count(&format!("accepted_invalid[{k:?}]"), 1);
+                if k.cannot_fit_bam() {
+                    out.violation_with(
+                        format!("accepted-out-of-range:{k:?}"),
+                        format!("the writer accepted a record whose {k:?} value has no BAM encoding ({cfg}): {}", short_rec(d)),
+                        json!({"record": i}),
+                    );
+                }
+            }
+            (Err(why), None) => out.count(&format!("rejected_valid[{why}]"), 1),
+            (Err(why), Some(k)) => {
+                out.count(&format!("rejected[{k:?}]"), 1);
+                out.count(&format!("reject_reason[{k:?}: {why}]"), 1);
+            }
+        }
+    }
+    out.count(&format!("records[{cfg}]"), descs.len() as u64);
+    for &i in &accepted {
+        out.fps.push(fnv1a(format!("{}|{cfg}", rec_class(&descs[i].0)).as_bytes()));
+    }
+
+    // the uncompressed stream, independently
+    let stream: Vec<u8> = if c.bgzf {
+        match vcore::bgzf::walk(&w.file) {
+            Ok(wk) => wk.concat(),
+            Err(e) => {
+                out.violation("raw:bgzf-walk-failed", format!("independent BGZF walker rejects the BAM file: {e}"));
+                return out;
+            }
+        }
+    } else {
+        w.file.clone()
+    };
+    let split = match split_bam_stream(&stream) {
+        Ok(s) => s,
+        Err(e) => {
+            out.violation("raw:split-failed", format!("independent BAM splitter rejects the stream ({cfg}): {e}"));
+            return out;
+        }
+    };
+    if split.records.len() != accepted.len() {
+        out.violation(
+            "raw:record-count",
+            format!("{} records accepted by the writer, {} blocks in the stream ({cfg})", accepted.len(), split.records.len()),
+        );
+        return out;
+    }
+    // binary reference list == dictionary
+    let want_refs: Vec<(Vec<u8>, i32)> = hdr.sq.iter().map(|s| (s.name.clone(), s.len as i32)).collect();
+    if split.refs != want_refs {
+        out.violation("raw:reference-list", format!("binary reference list {:?} != dictionary {:?}", split.refs.len(), want_refs.len()));
+    }
+
+    // (i) eager read-back
+    let eager = match guard::catch(|| read_eager(c.bgzf, &w.file)) {
+        Err(p) => {
+            out.violation(format!("panic:{}", p.sig), format!("eager reader panicked: {} at {}:{}", p.message, p.file, p.line));
+            return out;
+        }
+        Ok(Err((at, e))) => {
+            let d = accepted.get(at).map(|&i| short_rec(&descs[i].0)).unwrap_or_default();
+            out.violation_with(
+                format!("eager-read-fails:{}", e.split(':').next().unwrap_or("?")),
+                format!("reading back accepted record #{at} fails ({cfg}): {e}; record: {d}"),
+                json!({"record": accepted.get(at)}),
+            );
+            return out;
+        }
+        Ok(Ok(x)) => x,
+    };
+    let (rheader, erecs) = eager;
+    if describe_header(&rheader) != hdr {
+        out.violation("header-readback", format!("header read back differs from the one written ({cfg})"));
+    }
+    if erecs.len() != accepted.len() {
+        out.violation("eager-record-count", format!("{} accepted, {} read back ({cfg})", accepted.len(), erecs.len()));
+        return out;
+    }
+    let edescs: Vec<RecDesc> = erecs.iter().map(describe_record).collect();
+    for (k, &i) in accepted.iter().enumerate() {
+        let exp = bam_normal_form(&descs[i].0);
+        if let Some(d) = diff_records(&exp, &edescs[k], &Cmp::EXACT) {
+            out.violation_with(
+                format!("eager-readback:{}", d.field),
+                format!("accepted record reads back different in {} ({cfg}): {}; written: {}", d.field, d.detail, short_rec(&descs[i].0)),
+                json!({"record": i}),
+            );
+        }
+        out.count("compared_eager", 1);
+        if descs[i].0.cigar.len() > 65_535 {
+            out.count("cg_overflow_records_read_back", 1);
+        }
+    }
+
+    // (ii) raw bytes
+    for (k, &i) in accepted.iter().enumerate() {
+        let d = &descs[i].0;
+        let body = &stream[split.records[k].clone()];
+        let (parts, raw, spare) = match decode_bam_record(body) {
+            Ok(x) => x,
+            Err(e) => {
+                out.violation_with("raw:decode-failed", format!("independent decoder rejects the record ({cfg}): {e}; written: {}", short_rec(d)), json!({"record": i}));
+                continue;
+            }
+        };
+        out.count("compared_raw", 1);
+        let core = &parts.core;
+        let name_len = d.name.as_ref().map(|n| n.len()).unwrap_or(1) + 1;
+        if core.l_read_name as usize != name_len {
+            out.violation_with("raw:l_read_name", format!("l_read_name = {} for a name of {} bytes + NUL", core.l_read_name, name_len - 1), json!({"record": i}));
+        }
+        if core.l_seq as usize != d.seq.len() {
+            out.violation_with("raw:l_seq", format!("l_seq = {} for {} bases", core.l_seq, d.seq.len()), json!({"record": i}));
+        }
+        if let Some(b) = expected_bin(d) {
+            // SAMv1 4.2.1 treats *unmapped* reads as length 1 even if they carry a CIGAR; the
+            // statement speaks of "the record's span". Where the two readings differ, no verdict.
+            let ambiguous = d.flags & 0x4 != 0 && d.ref_len() > 1;
+            if ambiguous {
+                out.count("bin_not_judged_unmapped_flag_with_span", 1);
+            } else {
+                out.count("bin_checked", 1);
+                if core.bin as u32 != b {
+                    out.violation_with(
+                        "raw:bin",
+                        format!("stored bin {} != reg2bin {} of span {:?} ({cfg}); record: {}", core.bin, b, gensam::span(d), short_rec(d)),
+                        json!({"record": i}),
+                    );
+                }
+            }
+        } else {
+            out.count("bin_not_judged_coordinate_ge_2^29", 1);
+        }
+        if let Some(n) = spare {
+            if n != 0 {
+                out.count("odd_length_spare_nibble_nonzero", 1);
+            }
+        }
+        let mut exp = bam_normal_form(d);
+        exp.mapq = Some(d.mapq.unwrap_or(255));
+        let mut raw = raw;
+        if d.cigar.len() > 65_535 {
+            out.count("cg_overflow_records_raw", 1);
+            // placeholder kSmN with k = l_seq, m = reference length; real CIGAR in CG:B,I
+            let want = vec![(b'S', d.seq.len() as u32), (b'N', d.ref_len() as u32)];
+            if core.n_cigar_op != 2 || raw.cigar != want {
+                out.violation_with(
+                    "raw:cg-convention:placeholder",
+                    format!("{} operations: n_cigar_op = {}, CIGAR field {:?}, expected {:?}", d.cigar.len(), core.n_cigar_op, &raw.cigar[..raw.cigar.len().min(4)], want),
+                    json!({"record": i}),
+                );
+            }
+            let cg: Vec<&(gensam::Tag2, AuxDesc)> = raw.aux.iter().filter(|e| e.0 == *b"CG").collect();
+            let want_cg: Vec<u32> = d.cigar.iter().map(|(k, n)| (n << 4) | gensam::CIGAR_OPS.iter().position(|c| c == k).unwrap() as u32).collect();
+            match cg.as_slice() {
+                [(_, AuxDesc::BU32(v))] if *v == want_cg => {}
+                [(_, other)] => out.violation_with(
+                    "raw:cg-convention:tag-value",
+                    format!("CG field is {} with {:?} elements, expected B,I with {} packed operations", other.type_code(), other.array_len(), want_cg.len()),
+                    json!({"record": i}),
+                ),
+                x => out.violation_with("raw:cg-convention:tag-count", format!("{} CG fields in the record", x.len()), json!({"record": i})),
+            }
+            // compare the rest with the real CIGAR put back and CG removed
+            raw.cigar = d.cigar.clone();
+            raw.aux.retain(|e| e.0 != *b"CG");
+        } else if core.n_cigar_op as usize != d.cigar.len() {
+            out.violation_with("raw:n_cigar_op", format!("n_cigar_op = {} for {} operations", core.n_cigar_op, d.cigar.len()), json!({"record": i}));
+        }
+        if let Some(df) = diff_records(&exp, &raw, &Cmp::EXACT) {
+            out.violation_with(
+                format!("raw:decode-ne-expected:{}", df.field),
+                format!("the stored bytes decode (independently) to a different {} ({cfg}): {}; written: {}", df.field, df.detail, short_rec(d)),
+                json!({"record": i}),
+            );
+        }
+    }
+
+    // (iii) lazy accessors against the eager decode of the same bytes
+    let lazy = match guard::catch(|| read_lazy(c.bgzf, &w.file)) {
+        Err(p) => {
+            out.violation(format!("panic:{}", p.sig), format!("lazy reader panicked: {}", p.message));
+            return out;
+        }
+        Ok(Err((at, e))) => {
+            out.violation(format!("lazy-read-fails:{}", e.split(':').next().unwrap_or("?")), format!("read_record fails at record #{at} ({cfg}): {e}"));
+            return out;
+        }
+        Ok(Ok(v)) => v,
+    };
+    if lazy.len() != erecs.len() {
+        out.violation("lazy-record-count", format!("{} records eagerly, {} lazily", erecs.len(), lazy.len()));
+        return out;
+    }
+    for (k, rec) in lazy.iter().enumerate() {
+        let i = accepted[k];
+        let e = &edescs[k];
+        let long = descs[i].0.cigar.len() > 65_535;
+        let views: [(&str, Result<Result<RecDesc, String>, guard::PanicInfo>); 3] = [
+            ("inherent", guard::catch(|| describe_inherent(rec))),
+            ("trait", guard::catch(|| describe_alignment_record(rec, &rheader))),
+            (
+                "try_from_alignment_record",
+                guard::catch(|| RecordBuf::try_from_alignment_record(&rheader, rec).map(|rb| describe_record(&rb)).map_err(|e| format!("convert: {e}"))),
+            ),
+        ];
+        for (path, v) in views {
+            out.count(&format!("compared_lazy[{path}]"), 1);
+            match v {
+                Err(p) => out.violation_with(format!("panic:{}", p.sig), format!("lazy accessor ({path}) panicked: {} at {}:{}", p.message, p.file, p.line), json!({"record": i})),
+                Ok(Err(msg)) => out.violation_with(
+                    format!("lazy-accessor-fails:{path}:{}", msg.split(':').next().unwrap_or("?")),
+                    format!("lazy view ({path}) of an accepted record fails: {msg}; record: {}", short_rec(&descs[i].0)),
+                    json!({"record": i}),
+                ),
+                Ok(Ok(l)) => {
+                    if let Some(df) = diff_records(e, &l, &Cmp::EXACT) {
+                        if long && df.field == "aux:count" && only_extra_cg(e, &l) {
+                            out.violation_with(
+                                format!("lazy-ne-eager:{path}:data-retains-CG-of-long-cigar"),
+                                format!(
+                                    "lazy data() of a record with {} CIGAR operations still yields the CG:B,I carrier field ({} fields) while cigar() already returns the real CIGAR; the eager decode removes it ({} fields)",
+                                    descs[i].0.cigar.len(),
+                                    l.aux.len(),
+                                    e.aux.len()
+                                ),
+                                json!({"record": i}),
+                            );
+                        } else {
+                            out.violation_with(
+                                format!("lazy-ne-eager:{path}:{}", df.field),
+                                format!("lazy view ({path}) differs from the eager decode of the same bytes in {}: {}; record: {}", df.field, df.detail, short_rec(&descs[i].0)),
+                                json!({"record": i}),
+                            );
+                        }
+                    }
+                }
+            }
+        }
+    }
+
+    // (iv) the lazy record written again
+    let mut w2 = bam::io::Writer::from(Vec::new());
+    let mut accepted2: Vec<usize> = Vec::new();
+    let ok = guard::catch(|| -> Result<(), String> {
+        w2.write_header(&rheader).map_err(|e| format!("write_header: {e}"))?;
+        for (k, rec) in lazy.iter().enumerate() {
+            match w2.write_record(&rheader, rec) {
+                Ok(()) => accepted2.push(k),
+                Err(e) => out.count(&format!("rewrite_rejected[{}]", reason(&e)), 1),
+            }
+        }
+        Ok(())
+    });
+    match ok {
+        Err(p) => {
+            out.violation(format!("panic:{}", p.sig), format!("write_record of a lazy record panicked: {} at {}:{}", p.message, p.file, p.line));
+            return out;
+        }
+        Ok(Err(e)) => {
+            out.violation("rewrite-header-failed", e);
+            return out;
+        }
+        Ok(Ok(())) => {}
+    }
+    let file2 = w2.into_inner();
+    // judge record by record so that one unreadable record does not hide the others
+    match split_bam_stream(&file2) {
+        Err(e) => out.violation("rewrite:split-failed", format!("independent splitter rejects the re-written stream: {e}")),
+        Ok(s2) if s2.records.len() != accepted2.len() => out.violation("rewrite:record-count", format!("{} re-written, {} blocks", accepted2.len(), s2.records.len())),
+        Ok(s2) => {
+            for (j, &k) in accepted2.iter().enumerate() {
+                let i = accepted[k];
+                let mut one = Vec::new();
+                one.extend_from_slice(&(s2.records[j].len() as u32).to_le_bytes());
+                one.extend_from_slice(&file2[s2.records[j].clone()]);
+                let got = guard::catch(|| {
+                    // a reader over exactly this record block
+                    let mut r = bam::io::Reader::from(&one[..]);
+                    let mut rb = RecordBuf::default();
+                    r.read_record_buf(&rheader, &mut rb).map(|_| rb)
+                });
+                out.count("compared_rewritten", 1);
+                let long = descs[i].0.cigar.len() > 65_535;
+                match got {
+                    Err(p) => out.violation_with(format!("panic:{}", p.sig), format!("reading a re-written record panicked: {}", p.message), json!({"record": i})),
+                    Ok(Err(e)) => {
+                        let why = reason(&e);
+                        let sig = if long && why.contains("duplicate tag") {
+                            "rewrite-unreadable:long-cigar:duplicate-CG".to_string()
+                        } else {
+                            format!("rewrite-unreadable:{}", why.chars().take(40).collect::<String>())
+                        };
+                        out.violation_with(
+                            sig,
+                            format!(
+                                "a lazy bam::Record ({} CIGAR operations) written with write_record cannot be read back: {why}; record: {}",
+                                descs[i].0.cigar.len(),
+                                short_rec(&descs[i].0)
+                            ),
+                            json!({"record": i}),
+                        );
+                    }
+                    Ok(Ok(rb)) => {
+                        let exp = bam_normal_form(&descs[i].0);
+                        if let Some(df) = diff_records(&exp, &describe_record(&rb), &Cmp::EXACT) {
+                            out.violation_with(
+                                format!("rewrite-readback:{}", df.field),
+                                format!("a lazy record written again reads back different in {}: {}; record: {}", df.field, df.detail, short_rec(&descs[i].0)),
+                                json!({"record": i}),
+                            );
+                        }
+                    }
+                }
+            }
+        }
+    }
+    if idx % 37 == 0 {
+        out.sample = Some(json!({"case": case_json(c), "records": descs.len(), "accepted": accepted.len(),
+            "first": accepted.first().map(|&i| short_rec(&descs[i].0))}));
+    }
+    out
+}
 
 fn main() {
-    eprintln!("c05: not implemented");
-    std::process::exit(2);
+    let ctx = Ctx::from_args();
+    let ctx = vcore::cases::replay_request(&ctx).map(|r| r.1).unwrap_or(ctx);
+    let mut rep = Report::new(
+        "case = batch of records of gensam's full SAM data model (names 1..254/missing over [!-?A-~], 12 flag bits, positions up to 2^31 incl. \
+         2^29 and 2^31 edges, MAPQ 0..255, CIGARs of 0/1/few/100..2000/65535/65536/65537/70000 operations over all 9 kinds, odd/even/zero SEQ over \
+         the 16-letter alphabet plus lower case and foreign bytes, QUAL present/missing, every aux type A c C s S i I f Z H B:cCsSiIf at range \
+         edges incl. empty arrays, -0, subnormals, inf, NaN) plus ~7% out-of-range records of 13 classes, written under (dictionary | no \
+         dictionary) x (Writer::new BGZF | Writer::from raw); deterministic boundary corpus under all 4 combinations + VERIF_SEED-seeded random \
+         part; evaluation = one record handed to the writer; distinct = distinct (gensam::rec_class of an accepted record, configuration); \
+         non-trivial = accepted records (each is read back eagerly, decoded independently from the raw bytes, viewed lazily through 3 paths and \
+         re-written)",
+    );
+    rep.assumptions.push("oracles: the generator's description + gensam's BAM decoder/reg2bin written from SAMv1 4.2/5.3; BGZF layer undone by vcore's independent walker".into());
+    rep.assumptions.push("aux equality in BAM = same tag order, same declared type (c/C/s/S/i/I kept apart), same value; floats bit-identical (NaN = any NaN)".into());
+    rep.assumptions.push("tag CG is never generated (reserved for the long-CIGAR convention); stored bin is not judged for records with flag 0x4 and a CIGAR span > 1 (SAMv1 4.2.1 says length 1 for unmapped reads, the statement says the record's span) nor for coordinates >= 2^29".into());
+    rep.assumptions.push("l_seq, block_size and B-array counts are 32-bit: values beyond them are not reachable with feasible memory and are not exercised".into());
+    let cases = gen_cases(&ctx);
+    let f = |i: u64| -> CaseOut { run_case(&cases[i as usize], i) };
+    run_cases(&ctx, &mut rep, cases.len() as u64, 120.0, &f, &|i| case_json(&cases[i as usize]));
+    if ctx.replay.is_none() {
+        let counters = rep.counters.clone();
+        let g = |k: &str| counters.get(k).copied().unwrap_or(0);
+        let quick = ctx.quick();
+        rep.floor("accepted_valid", g("accepted_valid"), if quick { 20_000 } else { 500_000 }.min(ctx.budget("records", 30_000, 1_500_000) * 6 / 10));
+        rep.floor("compared_eager", g("compared_eager"), g("accepted_valid"));
+        rep.floor("compared_raw", g("compared_raw"), g("accepted_valid"));
+        rep.floor("compared_lazy[inherent]", g("compared_lazy[inherent]"), g("accepted_valid"));
+        rep.floor("compared_lazy[trait]", g("compared_lazy[trait]"), g("accepted_valid"));
+        rep.floor("bin_checked", g("bin_checked"), 1000);
+        rep.floor("cg_overflow_records_raw", g("cg_overflow_records_raw"), 8);
+        let rejected: u64 = counters.iter().filter(|(k, _)| k.starts_with("rejected[")).map(|(_, v)| *v).sum();
+        rep.floor("rejected_out_of_range_records", rejected, 300);
+        for c in ["dict+bgzf", "dict+raw", "nodict+bgzf", "nodict+raw"] {
+            rep.floor(&format!("records[{c}]"), g(&format!("records[{c}]")), 300);
+        }
+    }
+    rep.finish(&ctx);
 }
